@@ -211,6 +211,13 @@ pub fn on_poll_end(w: &mut World, id: NodeId, res: Res, val: Option<u32>) {
         }
         return;
     }
+    if matches!(res, Res::Ready | Res::Ok | Res::Err) && matches!(w.model.co.terminal, Some(Terminal::TryForEach | Terminal::CollectResult)) {
+        if let Some(at) = w.model.co.first_err_at {
+            cflag(w, "ran_after_error", || {
+                format!("work future n{id} ran to completion after a work future had already returned Err (log position {at}); futures still in flight must be dropped unfinished")
+            });
+        }
+    }
     if res == Res::Err {
         if let Some(v) = val {
             w.model.co.errs.push(v);
